@@ -18,6 +18,9 @@ var c03Templates = []string{
 	"def t \"n\" {\n def t \"n\" {\n f = K\n}\n}",
 	"def t {\n var f = K\n g = f\n def c {\n var g = K\n h = g\n}\n}",
 	"def t {\n c = K\n def c {\n x = K\n}\n}",
+	"def t \"a.\" {\n def c \"x.\" {\n g = K\n}\n def c \"x\" {\n g = K\n}\n}",
+	"def t \"n\" {\n TYPE = K\n NAME = K\n x = TYPE\n y = NAME\n}",
+	"def u {\n f = K\n def c {\n f = K\n g = f\n}\n h = f\n}",
 }
 
 // C03_Blocks: one to three (four thorough) toplevel blocks chosen from twelve
@@ -61,6 +64,8 @@ func C03_Curated() {
 		"def head { h = 1001 }\ndef srv \"s1\" { p = 1002 }\ndef mid { }\nbind srv -> struct\ndef tail { }\n",
 		"def a { b = 1001\n def b { x = 1002 } }\n",
 		"def a { def b { x = 1002 }\n def c { b = 1001 } }\n",
+		"def t { var v = 1001 }\ndef u { v = 1002\n w = v }\n",
+		"def p \"pn\" { TYPE = 1001\n def q { x = TYPE\n y = NAME } z = TYPE }\n",
 	}
 	src := progs[verif.Choice("prog", len(progs))]
 	values := map[string]any{}
